@@ -28,7 +28,6 @@ import (
 type nameShape struct {
 	name string
 	mk   func(stage string, i int) string
-	max  int // largest N used with this shape (keeps the source below 300 000 bytes)
 }
 
 func padName(s string, n int) string {
@@ -39,13 +38,13 @@ func padName(s string, n int) string {
 }
 
 var nameShapes = []nameShape{
-	{"short", func(st string, i int) string { return fmt.Sprintf("v%s%04d", st, i) }, 1 << 30},
-	{"under", func(st string, i int) string { return fmt.Sprintf("seed_col_%s_%d", st, i) }, 1 << 30},
-	{"upper", func(st string, i int) string { return fmt.Sprintf("_V%sn%dZ", st, i) }, 1 << 30},
+	{"short", func(st string, i int) string { return fmt.Sprintf("v%s%04d", st, i) }},
+	{"under", func(st string, i int) string { return fmt.Sprintf("seed_col_%s_%d", st, i) }},
+	{"upper", func(st string, i int) string { return fmt.Sprintf("_V%sn%dZ", st, i) }},
 	// names of 63, 64 and 65 bytes (the property knows no length limit for names)
-	{"len63", func(st string, i int) string { return padName(fmt.Sprintf("w%s_%d_", st, i), 63) }, 4100},
-	{"len64", func(st string, i int) string { return padName(fmt.Sprintf("w%s_%d_", st, i), 64) }, 4100},
-	{"len65", func(st string, i int) string { return padName(fmt.Sprintf("w%s_%d_", st, i), 65) }, 4100},
+	{"len63", func(st string, i int) string { return padName(fmt.Sprintf("w%s_%d_", st, i), 63) }},
+	{"len64", func(st string, i int) string { return padName(fmt.Sprintf("w%s_%d_", st, i), 64) }},
+	{"len65", func(st string, i int) string { return padName(fmt.Sprintf("w%s_%d_", st, i), 65) }},
 }
 
 type nameStyle struct {
@@ -111,7 +110,7 @@ func namesCase(t *vlib.T, sh nameShape, st nameStyle, fresh bool) *vlib.Outcome 
 	hist := sh.name + "/" + st.name
 	var done []int
 	fail := func(format string, a ...interface{}) *vlib.Outcome {
-		o.Violation = fmt.Sprintf(format, a...) + fmt.Sprintf("\n (earlier in this process: templates with %v distinct names of this kind, all rendered correctly)", done)
+		o.Violation = fmt.Sprintf(format, a...) + fmt.Sprintf("\n (earlier stages of this case, all rendered correctly: templates with %v distinct names; the process may have rendered other cases before)", done)
 		return o
 	}
 	count := func(src string) {
@@ -119,7 +118,8 @@ func namesCase(t *vlib.T, sh nameShape, st nameStyle, fresh bool) *vlib.Outcome 
 		o.Counters["bytes_scanned"] += int64(len(src))
 	}
 	for si, n := range nameCounts(t.Thorough()) {
-		if n > sh.max {
+		// a stage whose template would exceed 300 000 bytes (the bound of this check) is left out
+		if n*(len(st.open)+len(sh.mk("a", n-1))+len(st.cl)+1) > 300000 {
 			continue
 		}
 		stage := ""
